@@ -419,5 +419,12 @@ def run(repo, check):
     check.run_rule(rule_r1, repo)
     check.run_rule(rule_r2, repo)
     check.run_rule(rule_r3, repo)
+    from sa.rules import c11 as _c11, c13 as _c13
+    from sa.rules.common import share
+    share(check, repo, _c11.rule_r1, 'C20.R4', 'the scanner extracts and registers the definitions of every table-definition message it passes - also one that a filter '
+          'expression keeps from being yielded - from a full decode, before the next message is read (shared with C11.R1)', args=(check.tier,),
+          keep=lambda f: 'tables' in f.key)
+    share(check, repo, _c13.rule_r7, 'C20.R5', 'objects built from the tables are cached only in the table-group cache, which the scanner empties when definitions arrive: '
+          'no other process-wide store can keep templates or descriptors of the old definitions (shared with C13.R7)')
     check.assumptions = ['only the NCEP definition-message layout (the one the code asserts) is covered',
                          'that a data message decodes according to the registered entries follows from C01 once the tables hold them; decoding itself is not re-decided here']
